@@ -215,6 +215,9 @@ func ReadGFF(f io.Reader) (GFF, error) {
 	var err error
 
 	s := bufio.NewScanner(f)
+	// the ##FASTA section may hold a genome on one line, and column 9 may hold long free text: allow
+	// lines as long as the fasta readers do, and report a longer one instead of silently stopping there
+	s.Buffer(make([]byte, 0), 1024*1024)
 	for s.Scan() {
 		line := s.Text()
 		if inFasta {
@@ -245,6 +248,10 @@ func ReadGFF(f io.Reader) (GFF, error) {
 			}
 			features = append(features, feature)
 		}
+	}
+
+	if err = s.Err(); err != nil {
+		return gff, err
 	}
 
 	gff.Features = features
